@@ -136,7 +136,11 @@ func c04Check(c *Ctx, doc *XElem, path string, choices []int) (nontrivial bool) 
 				return
 			}
 			var ms mxj.MapSeq
-			ms, err = mxj.NewMapFormattedXmlSeq(b)
+			if len(xmlText)%2 == 0 {
+				ms, err = mxj.NewMapFormattedXmlSeq(b, false) // an explicit false means the same as no argument
+			} else {
+				ms, err = mxj.NewMapFormattedXmlSeq(b)
+			}
 			scribble(b)
 			if err != nil {
 				return
@@ -184,7 +188,7 @@ func c04Check(c *Ctx, doc *XElem, path string, choices []int) (nontrivial bool) 
 func c04Decos(base *XElem, thorough bool) []Deco {
 	var ds []Deco
 	els := base.elems()
-	vals := []string{"v", "a&b<c>", "\"q\" 'r'", "é", " s "}
+	vals := []string{"v", "a&b<c>", "\"q\" 'r'", "é", " s ", "\u00a0t\u2028", "1.50"}
 	for i, e := range els {
 		nk := len(e.Items)
 		for _, an := range []string{"x", "y", "n:x", "xmlns:q"} {
